@@ -43,6 +43,22 @@ def run(R, tier):
                 dflt = (len(conv) == 1 and "CharacterProgramData" in repr(conv[0].args[0]), M.outcome(r), repr(snapshot(v)) if v is not None else None)
                 continue
             seen.setdefault(lit.decode(), set()).add(v.name if isinstance(v, EnumV) else repr(v))
+        if seen != {k: {v} for k, v in KW.items()} or dflt is None:
+            # the keywords are not a chain of guards (e.g. a table that is searched): decide the same table by folding the
+            # conversion on every keyword in its short and its long form, and the delegation on a text that is no keyword
+            feng = CV.fold_engine("dflt", "scpi_contrib")
+            seen2 = {}
+            for kw in KW:
+                short = "".join(c for c in kw if not c.islower())
+                for text in {kw, short, kw.lower(), short.lower(), kw.upper()}:
+                    rs = CV.fold_character(feng, b, text.encode()) or []
+                    for r in rs:
+                        v = ok_value(r)
+                        seen2.setdefault(kw, set()).add(v.name if isinstance(v, EnumV) else M.outcome(r))
+            rs = CV.fold_character(feng, b, b"NOKEYWORD") or []
+            if seen2 == {k: {v} for k, v in KW.items()} and rs:
+                seen = seen2
+                dflt = (all(len([e for e in r.trace if e.kind == "call" and e.name.endswith("TryFrom::try_from")]) == 1 and "CharacterProgramData" in repr([e for e in r.trace if e.kind == "call" and e.name.endswith("TryFrom::try_from")][0].args[0]) for r in rs), None, None)
         R.check(seen == {k: {v} for k, v in KW.items()}, "R17.1", "keywords", "MAXimum/MINimum/DEFault/UP/DOWN -> the five special values (mnemonic_compare: short and long form)", "keyword table of NumericValue is %s, expected %s" % (seen, KW), where=b.span)
         # non-keyword character data and every other element type: the underlying conversion decides
         good = dflt is not None and dflt[0]
